@@ -175,6 +175,10 @@ func runC01(c C01Case) (c01Stats, error) {
 			en.e.SetCache(op.On)
 			en.cacheOn = op.On
 			en.spec.CacheOff = !op.On
+		case "configure":
+			// a global, function or filter is added to this engine only
+			applyConfig(en.e, op.Src)
+			en.spec.Config = append(append([]string{}, en.spec.Config...), op.Src)
 		case "debug":
 			en.e.SetDebug(op.On)
 			en.spec.Debug = op.On
@@ -343,7 +347,15 @@ func genC01(t *rapid.T) C01Case {
 		eng := rapid.IntRange(0, nw-1).Draw(t, "eng")
 		names := sortedTemplateNames(c.Worlds[eng])
 		op := C01Op{Eng: eng}
-		switch k := rapid.IntRange(0, 25).Draw(t, "opkind"); {
+		switch k := rapid.IntRange(0, 26).Draw(t, "opkind"); {
+		case k == 26:
+			// one engine is configured further; any engine then renders the templates that name the addition
+			cfg := rapid.SampledFrom([]string{"g:cfg_a", "g:cfg_b", "f:cfg_fn", "|cfg_filter", "|upper", "f:max"}).Draw(t, "cfg")
+			other := rapid.IntRange(0, len(c.Worlds)-1).Draw(t, "cfgreader")
+			nm := rapid.SampledFrom([]string{"x_cfg", "x_cfg_fn", "x_cfg_filter"}).Draw(t, "cfgname")
+			c.Ops = append(c.Ops, C01Op{Op: "render", Eng: other, Name: nm, Ctx: other}, C01Op{Op: "configure", Eng: eng, Src: cfg},
+				C01Op{Op: "render", Eng: other, Name: nm, Ctx: other}, C01Op{Op: "render", Eng: eng, Name: nm, Ctx: eng})
+			continue
 		case k == 25:
 			// a template with escaped string literals is rendered, another source with escapes is
 			// parsed (or registered), the first one is rendered again
@@ -452,7 +464,7 @@ func genC01(t *rapid.T) C01Case {
 	return c
 }
 
-const c01Rule = "histories of 5-40 (thorough 200) operations over 1-3 engines, each holding a template set from the structural generators (control flow, inheritance with parent(), include chains, macro libraries in five call forms, apply/spaceless) plus failing templates (syntax error, unclosed tag, include of a missing template, include of a broken template, division by zero) and a template above 4096 bytes; operations: Render / RenderTo / Load+Render, bursts of up to 130 renders of one template, repeat of the previous call, ParseTemplate+Render of valid, invalid, small and > 4096-byte sources (also of other engines' sources), RegisterString / LoadFromCompiledData / RegisterTemplate (also of names whose lookup failed or was ignored earlier, of a name whose old handle is still held, and of the parent behind a relative extends/include), a struct reached by value and by pointer in separate templates, templates with escaped string literals around a parse of other escaped literals, SetCache, SetDebug, runtime.GC once or twice; after every render the result is compared with a pristine engine in a fresh OS process; non-trivial = the checked render is preceded by a render of the same cached template, a failing render or a GC; distinct by history"
+const c01Rule = "histories of 5-40 (thorough 200) operations over 1-3 engines, each holding a template set from the structural generators (control flow, inheritance with parent(), include chains, macro libraries in five call forms, apply/spaceless) plus failing templates (syntax error, unclosed tag, include of a missing template, include of a broken template, division by zero) and a template above 4096 bytes; operations: Render / RenderTo / Load+Render, bursts of up to 130 renders of one template, repeat of the previous call, ParseTemplate+Render of valid, invalid, small and > 4096-byte sources (also of other engines' sources), RegisterString / LoadFromCompiledData / RegisterTemplate (also of names whose lookup failed or was ignored earlier, of a name whose old handle is still held, and of the parent behind a relative extends/include), a struct reached by value and by pointer in separate templates, templates with escaped string literals around a parse of other escaped literals, SetCache, SetDebug, AddGlobal / AddFunction / AddFilter on one of the engines (the others must not see it), runtime.GC once or twice; after every render the result is compared with a pristine engine in a fresh OS process; non-trivial = the checked render is preceded by a render of the same cached template, a failing render or a GC; distinct by history"
 
 func TestC01History(t *testing.T) {
 	r := NewRec(t, "C01", c01Rule)
